@@ -20,13 +20,13 @@ RULE = ('exhaustive: every string of length <= N (quick 9, thorough 11) over the
         'randomised-encoder streams over the same texts. Non-trivial: text of >= 3 bytes whose stream contains at least one back-reference '
         '(producer) or any stream with >= 1 reference (consumer); distinct by stream hash')
 ASSUMPTIONS = [
-    'texts containing NUL or ending in the reserved compatibility suffix are outside the domain (raw storage is NUL-terminated; the format reserves the suffix)',
+    'texts ending in the reserved compatibility suffix are outside the domain (the format reserves the suffix); texts containing NUL are driven through the stream-level functions (the format spells NUL as 00 00) but not through the cart writer, whose raw storage is NUL-terminated',
     'texts are at most 65535 bytes (16-bit length header)',
     'the reference decoder copies back-references byte by byte, as PICO-8 does',
 ]
 EXHAUSTIVE = {'quick': True, 'thorough': True}
 TIMEOUT = {'quick': 900, 'thorough': 7200}
-KNOWN_KEYS = {'suffix-straddle', 'overlapping-reference'}
+KNOWN_KEYS = {'suffix-straddle', 'overlapping-reference', 'nul-at-text-edge'}
 ALPHA = b'ab\nA'
 
 
@@ -43,6 +43,7 @@ def plan(tier, seed):
     for i in range(k):
         specs.append({'kind': 'window', 'count': 10 if tier == 'quick' else 40, 'index': i})
     specs.append({'kind': 'tail'})
+    specs.append({'kind': 'nul', 'count': 150 if tier == 'quick' else 1500})
     for i in range(2 if tier == 'quick' else 8):
         specs.append({'kind': 'update60', 'count': 60 if tier == 'quick' else 250})
     for i in range(k):
@@ -60,8 +61,10 @@ def plan(tier, seed):
     return specs
 
 
-def in_domain(t):
-    return (b'\x00' not in t and len(t) <= 65535 and
+def in_domain(t, nul=False):
+    """nul=True: the stream-level clauses (compress_code / decompress_code / manufactured streams), where the format has an explicit
+    spelling for a NUL character (00 00); the cart writer's raw storage cannot carry one and is not driven with such texts."""
+    return ((nul or b'\x00' not in t) and len(t) <= 65535 and
             not rc.strip_future(t) != t)
 
 
@@ -71,7 +74,10 @@ def _area(length, stream):
 
 
 def classify_producer(t, got):
-    """Mechanism for a producer-side mismatch: surplus output that is a prefix of the compat suffix."""
+    """Mechanism for a producer-side mismatch: surplus output that is a prefix of the compat suffix; NUL characters lost at the
+    edges of the text."""
+    if isinstance(got, bytes) and got != t and got == t.strip(b'\x00'):
+        return 'nul-at-text-edge'
     if isinstance(got, bytes) and got.startswith(t):
         extra = got[len(t):]
         for suf in (b'\n' + rc.FUTURE2, rc.FUTURE2, rc.FUTURE1):
@@ -138,7 +144,7 @@ def check_producer(ctx, t, tag, compress, p8png):
             len(got), len(t), d, got[max(0, len(t) - 10):len(t) + 40]), case, key=classify_producer(t, got))
         return
     # the writer's own packaging, when it chooses the compressed form
-    if len(stream) < len(t) and b'\r' not in t:
+    if len(stream) < len(t) and b'\r' not in t and b'\x00' not in t:
         try:
             a2 = p8png.get_bytes_from_code(t)
             n3, got3, cs3 = p8png.get_code_from_bytes(a2, 8)
@@ -276,6 +282,29 @@ def run_shard(spec, ctx):
             ctx.feature('window_dist_%s' % ('le3120' if dist <= 3120 else 'gt3120'))
             ctx.feature('window_cases')
             check_producer(ctx, t, 'window', compress, p8png)
+    elif kind == 'nul':
+        # texts with NUL characters (spelled 00 00 in a stream): at the start, inside, at the end, in runs; every text of length <= 6
+        # over {a, NUL, A, LF}; manufactured streams over the same texts
+        alpha = b'a\x00A\n'
+        for L in range(1, 7):
+            for tup in itertools.product(alpha, repeat=L):
+                t = bytes(tup)
+                if b'\x00' in t and in_domain(t, nul=True):
+                    ctx.feature('nul_texts')
+                    check_producer(ctx, t, 'nul-exh', compress, p8png)
+        for i in range(spec['count']):
+            body = bytearray(soup(rng, rng.randint(3, 400)))
+            for _ in range(rng.randint(1, 6)):
+                pos = rng.choice((0, len(body), rng.randrange(len(body) + 1)))
+                body[pos:pos] = b'\x00' * rng.choice((1, 1, 2, 5))
+            t = bytes(body)
+            if not in_domain(t, nul=True):
+                continue
+            ctx.feature('nul_texts')
+            ctx.feature('nul_at_start' if t[:1] == b'\x00' else 'nul_at_end' if t[-1:] == b'\x00' else 'nul_inside')
+            check_producer(ctx, t, 'nul', compress, p8png)
+            check_consumer(ctx, t, rc.c_random_items(t, rng, p_ref=rng.choice((0.3, 0.9))), compress, 'nul-random-encoder')
+        ctx.sample({'nul_text': b'x="\x00ab\x00"'})
     elif kind == 'tail':
         block = b'abcdefghijklmnopq'  # 17 bytes
         for k in range(0, 21):
@@ -284,6 +313,16 @@ def run_shard(spec, ctx):
                 ctx.feature('tail_offset_%d' % k)
                 check_producer(ctx, t, 'tail', compress, p8png)
     elif kind == 'update60':
+        shim_texts = []
+        for shim in (rc.FUTURE1, rc.FUTURE2):
+            for pre in (b'x=1\n', b'', b'function _update60() end\n'):
+                for post in (b'\n', b' ', b'\n\n', b'x', b'\n-- end', b'\t'):
+                    shim_texts.append(pre + shim + post)
+        for t in shim_texts:
+            # the compatibility shim as ordinary text of the program, followed by something: it is part of the text
+            if in_domain(t):
+                ctx.feature('shim_followed_by_text')
+                check_producer(ctx, t, 'shim-trailer', compress, p8png)
         for t in (b'_update60=1\nx=2\n', b'function _update60() end\nx=1\n', b'x=1\n_update60()', b'x=1\nfoo(_update60)\n',
                   b'x=1\nif(_update60) y=1\nz=2\n', b'if(_update60) y=1\n', b'zzz\nif(_update60) y=1\n', b'a=1\nb=_update60'):
             ctx.feature('update60_cases')
@@ -450,6 +489,9 @@ def gates(m, tier):
     for k in range(21):
         if f.get('tail_offset_%d' % k, 0) < 1:
             missed.append('tail offset %d missing' % k)
+    if f.get('nul_texts', 0) < 1000 or min(f.get('nul_at_start', 0), f.get('nul_at_end', 0), f.get('nul_inside', 0)) < 5 or f.get('shim_followed_by_text', 0) < 20:
+        missed.append('texts with NUL characters: %d (start %d, end %d, inside %d); shim followed by text: %d' % (
+            f.get('nul_texts', 0), f.get('nul_at_start', 0), f.get('nul_at_end', 0), f.get('nul_inside', 0), f.get('shim_followed_by_text', 0)))
     if mon.get('own_decodes_compared', 0) < 1000 or mon.get('foreign_streams_compared', 0) < 500:
         missed.append('monitors saw too few events')
     if mon.get('writer_areas_decoded', 0) < 30:
